@@ -64,6 +64,15 @@ FORMS = [
     ("call0", "fn seven(){ 7 }", "seven() + x"),
     ("string_probe", "", "{ let s = \"abc\"\n x }"),
     ("paren_block", "", "({ (x) })"),
+    # block structure of quoted code: a let inside a nested block ends with that block, wherever in the block it stands
+    ("block_let_shadow", "", "{ let a = x + 1\n let r = { let a = 30\n a }\n r * 100 + a }"),
+    ("block_stmt_then_let_shadow", "", "{ let a = x + 1\n let r = { a * 2\n let a = 30\n a }\n r * 100 + a }"),
+    ("block_assign_then_let_shadow", "", "{ let a = x\n let r = { (a = a + 1)\n let a = 30\n a }\n r * 100 + a }"),
+    ("block_two_levels_shadow", "", "{ let a = x\n let r = { a + 0\n { a + 1\n let a = 5\n a } + a }\n r * 10 + a }"),
+    ("if_arm_let_shadow", "", "{ let a = x\n let r = if (a > 0) { a + 0\n let a = 5\n a } else { 0 }\n r * 10 + a }"),
+    ("lambda_body_let_shadow", "", "{ let a = x\n let g = |y| { y + 0\n let a = 7\n a + y }\n g(1) * 10 + a }"),
+    ("block_stmt_then_letrec_shadow", "", "{ let a = x\n let r = { a + 0\n letrec a = |n| if (n > 0) n + a(n - 1) else 0\n a(3) }\n r * 10 + a }"),
+    ("block_stmt_then_tuple_let_shadow", "", "{ let a = x\n let r = { a + 0\n let (a, b) = (8, 9)\n a + b }\n r * 10 + a }"),
 ]
 # macro-stage float arithmetic passed through lift_f
 LIFTS = ["1 / 3", "0.1 + 0.2", "2 ^ 0.5", "1 / (2 ^ 1030)", "0 * (0 - 1)", "2 ^ 1000 * 10", "123456789.123456789", "2 ^ 1000 * 2 ^ 1000",
